@@ -139,7 +139,7 @@ Proof.
   (* the arm *)
   apply bindM_ok in H as (bd' & s5 & E5 & H). apply get_bind_ok in E5 as [-> Hbd'].
   rewrite Hbs, Hb in Hbd'. injection Hbd' as <-.
-  do 15 mstep H ACC.
+  do 16 mstep H ACC.
   rewrite Hold in H.
   apply bindM_ok in H as ([] & sa & Ea & H).
   apply bindM_ok in Ea as ([] & sb & Eb & Ea).
